@@ -16,7 +16,7 @@ from vf.families import BENCH_MIN_N, BENCH_NAMES
 ID = "C19"
 LEVEL = "exploration"
 RULE = (
-    "Hypothesis draws (function, n in 1..12 [2.. for chained], x in [-5,5]^n on a 1e-4 grid plus an irrational offset; half of the cases re-use the same array object after moving it in place by a drawn step; half also pass the point as a plain list or tuple); "
+    "Hypothesis draws (function, n in 1..12 [2.. for chained], x in [-5,5]^n on a 1e-4 grid plus an irrational offset; half of the cases re-use the same array object after moving it in place by a drawn step; a quarter also pass the point as a plain list or tuple, half of the rest as a strided / column / reversed view or a read-only array); "
     "non-trivial = n>=2 and no coordinate within 1e-3 of an integer or half-integer (where the test-suite's integer points live); "
     "distinct = distinct (function, x)"
 )
@@ -48,7 +48,7 @@ def case(draw, name):
     ks = draw(st.lists(st.integers(-49999, 49999), min_size=n, max_size=n))
     off = draw(st.sampled_from([0.0, math.pi * 1e-5, math.e * 1e-5]))
     x = [k * 1e-4 + off for k in ks]
-    out = {"bench": name, "x": x, "container": draw(st.sampled_from(["ndarray", "ndarray", "list", "tuple"]))}
+    out = {"bench": name, "x": x, "container": draw(st.sampled_from(["ndarray", "ndarray", "list", "tuple", "strided", "column", "reversed", "readonly"]))}
     if draw(st.booleans()):
         out["step"] = [k * 1e-3 for k in draw(st.lists(st.integers(-300, 300), min_size=n, max_size=n))]
     return out
@@ -93,6 +93,38 @@ def check(spec, stats=None):
         require(np.ndim(fl) == 0 and abs(float(fl) - float(fx)) <= 1e-12 * (1.0 + abs(float(fx))), f"value-is-scalar[{name}]", f"{name}: f({spec['container']}) = {fl!r} vs {fx!r}")
         if stats is not None:
             stats.bump("cases-with-list-or-tuple-input")
+    # ... and so must any ndarray holding the same values, whatever its memory layout: a strided view, a column of a
+    # C-ordered matrix (a member of a population), a reversed view, a read-only array
+    if spec.get("container") in ("strided", "column", "reversed", "readonly"):
+        kind = spec["container"]
+        if kind == "strided":
+            base = np.full(2 * n, 7.25)
+            base[::2] = x
+            xv = base[::2]
+        elif kind == "column":
+            base = np.arange(3 * n, dtype=float).reshape(n, 3) * 0.37 - 1.0
+            base[:, 1] = x
+            xv = base[:, 1]
+        elif kind == "reversed":
+            base = x[::-1].copy()
+            xv = base[::-1]
+        else:
+            base = x.copy()
+            base.setflags(write=False)
+            xv = base
+        keep = base.copy()
+        try:
+            gl = np.asarray(g(xv))
+            fl = f(xv)
+        except ValueError as e:
+            raise Violation(f"gradient-matches[{name}]", f"{name}: a {kind} ndarray argument is rejected: {e}")
+        require(np.array_equal(keep, base), f"argument-untouched[{name}]", f"{name}: the memory around a {kind} argument was modified")
+        require(gl.shape == x.shape, f"gradient-shape[{name}]", f"{name}: gradient of a {kind} view of length {n} has shape {gl.shape}")
+        require(float(np.max(np.abs(gl - gx))) <= 1e-12 * (1.0 + float(np.max(np.abs(gx)))), f"gradient-matches[{name}]",
+                f"{name}: gradient for a {kind} ndarray differs from the gradient at a contiguous copy of the same values (max diff {float(np.max(np.abs(gl - gx))):.3e})")
+        require(np.ndim(fl) == 0 and abs(float(fl) - float(fx)) <= 1e-12 * (1.0 + abs(float(fx))), f"value-is-scalar[{name}]", f"{name}: f({kind} view) = {fl!r} vs {fx!r}")
+        if stats is not None:
+            stats.bump("cases-with-non-contiguous-or-read-only-input")
     # The pair must be a pure function of the *values* handed in: the same array object, modified in
     # place by the caller between two calls (a very common calling pattern), must be answered at its
     # current contents, and neither call may modify it.
